@@ -45,6 +45,7 @@ THEOREMS_DOC = {
     "C18_version_floor": "forall dotted numeric strings: get_const = floor; safe_is_version keeps v iff v >=num 1.4; is_sensor's >= 2.0 test = a 2.x table is selected; a node gets the same table",
     "C18_node_same_rule": "forall values and oracles: node_const = gateway_const",
     "C18_nonnumeric_fallback": "oracle says incomparable or older than 1.4 -> version 1.4 and 1.4 constants (gateway and node)",
+    "C18_nonnumeric_fallback_refuted": "witness (known finding version/container-word): with awesomeversion's verdict on its container word 'dev' the digit-free string is kept and selects the 2.2 constants",
     "C18_generated_matches_spec": "generated CONST_VERSIONS/defaults = Spec's supported list; documented examples use documented keywords only",
 }
 
@@ -789,8 +790,28 @@ def version_values(ctx):
     return vals, n_grid
 
 
+def container_witness_selftest():
+    """The oracle used by the Coq witness C18_nonnumeric_fallback_refuted (container_orc) is the library's verdict."""
+    import operator
+    from awesomeversion import AwesomeVersion
+    for w in CONTAINER_WORDS:
+        for op in OPS:
+            for o in FIXED_VERSIONS:
+                try:
+                    got = (getattr(operator, op)(AwesomeVersion(w), AwesomeVersion(o)),
+                           getattr(operator, op)(AwesomeVersion(o), AwesomeVersion(w)))
+                except Exception as exc:
+                    return f"awesomeversion raises {type(exc).__name__} comparing {w!r} {op} {o!r}"
+                if got != (op in ("gt", "ge", "ne"), op in ("lt", "le", "ne")):
+                    return f"awesomeversion: {w!r} {op} {o!r} / reversed = {got}, the Coq witness oracle assumes a container word is greater"
+    return None
+
+
 def run(ctx, res):
     model = ctx.model
+    why = container_witness_selftest()
+    if why:
+        res.violate("oracle/container-witness", why, {"kind": "selftest"}, kind="correspondence", found_input=False)
     # ---- self tests of the monitor's reference
     for why in reference_selftest():
         res.violate("selftest/reference", why, {"kind": "selftest"}, kind="monitor",
